@@ -334,7 +334,7 @@ pub fn check_arbitrary(s: &str, st: &mut Stats) {
 /// the parser is in a different state (start, after a sign, after an operator, as numerator, as
 /// denominator, inside parentheses, at the end): whatever a parser does with look-alike digits,
 /// fractions, signs or spaces of other scripts, it must answer Ok or Err
-pub const SWEEP_TEMPLATES: [&str; 12] = ["x+@,y", "@,y", "x,@", "x,y@", "x+1/@,y", "(@x,y)", "x,-@", "@/2,y", "x@y,y", "zxxxxxx@,y", "x,zyyyyyy@y", "x+\u{bd}y-y@,y"];
+pub const SWEEP_TEMPLATES: [&str; 14] = ["x+@,y", "@,y", "x,@", "x,y@", "x+1/@,y", "(@x,y)", "x,-@", "@/2,y", "x@y,y", "zxxxxxx@,y", "x,zyyyyyy@y", "x+\u{bd}y-y@,y", "@z,y", "x,@ z"];
 pub fn sweep_codepoints(lo: u32, hi: u32, st: &mut Stats) {
     let mut n = 0u64;
     for cp in lo..hi {
@@ -362,7 +362,7 @@ pub fn sweep_codepoints(lo: u32, hi: u32, st: &mut Stats) {
 }
 
 pub fn run(ctx: &Ctx) {
-    ctx.set_rule("grammar strings are built from (terms, format) descriptions - every non-empty subset of {+-x, +-y, +-p[/q]} in every order, p in 0..9, q in 1..9, in either component against partner components, under 32 spacing/parenthesis/explicit-plus formats (thorough: all; quick: all components x 4 formats + random) - and the parsed map is compared at 6 points with the map the description denotes (1e-15); distinct = distinct strings; plus arbitrary strings (random bytes, unicode, 20k-char, 65k-200k-char runs of accepted characters ending in a rejected one, unbalanced, division by zero) which must return Ok/Err without panicking; plus every one of the 1,112,064 Unicode scalar values placed alone at 9 parser positions (start, after a sign, after an operator, numerator, denominator, inside parentheses, between terms, end) and at 3 positions a few bytes after an already rejected character (errors are formatted, as a caller reporting them would)");
+    ctx.set_rule("grammar strings are built from (terms, format) descriptions - every non-empty subset of {+-x, +-y, +-p[/q]} in every order, p in 0..9, q in 1..9, in either component against partner components, under 32 spacing/parenthesis/explicit-plus formats (thorough: all; quick: all components x 4 formats + random) - and the parsed map is compared at 6 points with the map the description denotes (1e-15); distinct = distinct strings; plus arbitrary strings (random bytes, unicode, 20k-char, 65k-200k-char runs of accepted characters ending in a rejected one, unbalanced, division by zero) which must return Ok/Err without panicking; plus every one of the 1,112,064 Unicode scalar values placed alone at 9 parser positions (start, after a sign, after an operator, numerator, denominator, inside parentheses, between terms, end) at 3 positions a few bytes after an already rejected character, and at 2 positions directly before one (errors are formatted, as a caller reporting them would)");
     ctx.assume("strings with whitespace outside the outer parentheses, coefficients other than +-1, or more than one constant per component are not taken to be in the grammar");
     let prev = panic::take_hook();
     panic::set_hook(Box::new(|_| {}));
